@@ -11,6 +11,7 @@ open Atomman Atomman.C15
         applies the insertion to the current system; reply `ok <dump>` (state replaced) or `err:<class>`
         (state kept).  `hasAtol = 0` is `atol=None`: the model applies the default itself.
   `sites  x y z  scale  hasAtol atol`   reply: the indices matched by the site search
+  `fidx name hasPos x y z hasDb kwEmpty q`  a float index object `q` handed to `name`: reply `err:<class>`
   `dflt v`  the default tolerance in the current working units (`dflt` alone: back to angstrom = 1)
 -/
 
@@ -144,6 +145,24 @@ def step (state : St) (toks : List String) : St × String :=
       match (do let p ← pV3; let sc ← pBool; let atol ← pOpt pRat; pure (p, sc, atol) : P _).run rest with
       | some ((p, sc, atol), []) =>
         (state, "sites " ++ " ".intercalate ((siteMatches s (toCart s sc p) (effAtol dflt atol)).map toString))
+      | _ => (state, err "format")
+  | "fidx" :: rest =>
+    -- an index object that is not of integer type: the class of the refusal
+    match st with
+    | none => (state, err "op")
+    | some s =>
+      match (do let name ← tok; let pos ← pOpt pV3; let hasDb ← pBool; let kwEmpty ← pBool; let q ← pRat
+                pure (name, pos, hasDb, kwEmpty, q) : P _).run rest with
+      | some ((name, pos, hasDb, kwEmpty, q), []) =>
+        let r : Option Refusal :=
+          if name = "vacancy" then some (vacancyF s pos q)
+          else if name = "substitutional" then some (substitutionalF s pos q)
+          else if name = "dumbbell" then some (dumbbellF s pos q)
+          else if name.startsWith "point:" then some (pointF s (name.drop 6).toString pos q hasDb kwEmpty)
+          else none
+        match r with
+        | some e => (state, e.wire)
+        | none => (state, err "format")
       | _ => (state, err "format")
   | _ => (state, err "op")
 
